@@ -486,6 +486,7 @@ def check_C11(F, tier, t0):
     guarded(R, 'X4', engine_x.rule_X4, F, R, ('order', 'export', 'vars'))
     guarded(R, 'H', engine_e.rule_H, F, R)
     guarded(R, 'E8', engine_e.rule_E8, F, R)      # one environment per formula: names are told apart by ids that every formula counts from 0
+    front_end(R, F)      # the ordering file is read by the formula tokenizer: what counts as a name, and that stray punctuation is skipped, is the regex
     # the semantic core: every operation is proved for an arbitrary total order of an arbitrary symbol type (C01 / C03 / C04 / C05)
     E = make_engine(F)
     evaluation(R, E)
